@@ -821,10 +821,15 @@ class Merge:
             return v
         if isinstance(n, ast.Call):
             f = n.func
-            if isinstance(f, ast.Name) and f.id in ('float', 'abs', 'bool'):
+            fid = f.id if isinstance(f, ast.Name) else None
+            if fid is not None and fid in self.env:
+                bound = self.env[fid]
+                if isinstance(bound, PyConst) and isinstance(bound.v, tuple) and bound.v[0] == 'builtin':
+                    fid = bound.v[1]
+            if fid in ('float', 'abs', 'bool'):
                 v = self.expr(n.args[0], g)
-                if f.id == 'float': return to_real(v)
-                if f.id == 'bool': return truth(v)
+                if fid == 'float': return to_real(v)
+                if fid == 'bool': return truth(v)
                 x = to_real(v); return z3.If(x >= 0, x, -x)
             if isinstance(f, ast.Attribute) and f.attr == 'get':
                 o = self.expr(f.value, g)
